@@ -2,7 +2,7 @@ SPECIFICATION Spec
 CONSTANT N = 4
 CONSTANT SITES <- Sites5
 CONSTANT STENCIL <- Stencil5
-CONSTANT GUESSMODES <- GuessFew
+CONSTANT GUESSMODES <- GuessNW
 CONSTANT STAMPS <- Stamps1
 CONSTANT WITHVEL = FALSE
 CONSTANT EMITMOD = 1499
